@@ -208,7 +208,8 @@ Contains(s, p)  == \E i \in 1..(Len(s) - Len(p) + 1) : SubSeq(s, i, i + Len(p) -
 (* Patterns: the literal forms lit, ^lit, lit$, ^lit$, and the invalid "(". *)
 (* A pattern computed at run time whose literal part contains one of the    *)
 (* metacharacters of the alphabet is outside the modelled pattern language.  *)
-HasMeta(lit) == \E i \in 1..Len(lit) : Ch(lit, i) \in {"(", "^", "$"}
+(* (the model characters of the two-byte rune are not patterns either: half a rune is not valid UTF-8 for a regexp) *)
+HasMeta(lit) == \E i \in 1..Len(lit) : Ch(lit, i) \in {"(", "^", "$", "{", "|"}
 Matches(s, p) ==
   IF p = "(" THEN Err("pattern")
   ELSE LET anchL == Len(p) > 0 /\ Ch(p, 1) = "^"
